@@ -261,7 +261,11 @@ TPlusItems(ev) ==
       zt == [i \in 1..n |-> [j \in 1..n |-> FloorOf(ev)]]
   IN << Item("rt", VRatio(DV(ev.rt), VAdd(t, s), tolv)), Item("rt2", VRatio(DV(ev.rt2), VSub(t, s), tolv)),
         Item("Ja", MRatioMilli(DM(ev.Ja), MId(n), zt)), Item("Jb", MRatioMilli(DM(ev.Jb), MId(n), zt)),
-        Item("Jc", MRatioMilli(DM(ev.Jc), MId(n), zt)), Item("Jd", MRatioMilli(DM(ev.Jd), MNeg(MId(n)), zt)) >>
+        Item("Jc", MRatioMilli(DM(ev.Jc), MId(n), zt)), Item("Jd", MRatioMilli(DM(ev.Jd), MNeg(MId(n)), zt)),
+        \* each optional output requested alone, or none: identical value and identical Jacobian (bit patterns)
+        Item("subsets", IF /\ ev.Ja1 = ev.Ja /\ ev.Jb1 = ev.Jb /\ ev.Jc1 = ev.Jc /\ ev.Jd1 = ev.Jd
+                           /\ ev.rt_a = ev.rt /\ ev.rt_b = ev.rt /\ ev.rt_0 = ev.rt
+                           /\ ev.rt2_a = ev.rt2 /\ ev.rt2_b = ev.rt2 /\ ev.rt2_0 = ev.rt2 THEN 0 ELSE 2000000000) >>
 
 JacsItems(ev) ==
   LET g == ev.g  t == DV(ev.t)
